@@ -386,4 +386,248 @@ theorem agree_unique (env : Env V T D S W) (path : List String) {c c' : C05.Corp
 
 end text
 
+
+/-! ### the combined invariant with ranking indexes, one batch, histories -/
+
+section write
+variable [DecidableEq T]
+
+/-- Model.lean's invariant (C01's + C02's), the flat stores hold the vectors of the stored documents, the
+text indexes carry the statistics of the corpus read off the stored documents -/
+structure RInv (lower : Bytes → Bytes) (cv : Conv) (env : Env V T D S W) (rs : RState V T) : Prop where
+  base : Inv lower cv rs.base
+  flat : ∀ fx ∈ rs.flats, FlatInvD env fx (docAt cv rs.base.shard.pts)
+  text : ∀ tx ∈ rs.texts, C05.TextInv tx.ix (refCorpus cv env tx.path rs.base.shard.pts.pI (C01.abs rs.base.shard))
+
+/-- the analysed documents of a batch reach the text index writer with every single point's own changes
+in batch order (the repaired `parallelAnalyse`: one worker per node id); the order ACROSS points is free -/
+def ArriveOK (arrive : List (C05.Doc T) → List (C05.Doc T)) : Prop :=
+  ∀ b id, (arrive b).filter (fun d => decide (d.1 = id)) = b.filter (fun d => decide (d.1 = id))
+
+/-- what a batch must satisfy: Model.lean's `StepOK` (fewer than `2^63` node ids afterwards; no NaN written
+into a float-indexed property) and C05's forced hypothesis on the arrival order -/
+def RStepOK (lower : Bytes → Bytes) (cv : Conv) (cfg : C01.Cfg) (env : Env V T D S W) (rs : RState V T)
+    (op : C01.Op) (ro : ROracle T) : Prop :=
+  (rs.step lower cv cfg env op ro).1.base.shard.nextV ≤ idBound ∧
+  (∀ pc ∈ changes cfg cv rs.base.shard op ro.o, ∀ ix ∈ rs.base.idxs, ix.kind = .flt → C02.FltOK ix.path pc.cur) ∧
+  ArriveOK ro.arrive
+
+def RHistOK (lower : Bytes → Bytes) (cv : Conv) (cfg : C01.Cfg) (env : Env V T D S W) :
+    RState V T → List (C01.Op × ROracle T) → Prop
+  | _, [] => True
+  | rs, e :: rest => RStepOK lower cv cfg env rs e.1 e.2 ∧ RHistOK lower cv cfg env (rs.step lower cv cfg env e.1 e.2).1 rest
+
+/-- under a negative index verdict the point store rejects every batch -/
+theorem shard_step_indexFalse (cfg : C01.Cfg) (s : Shard) (op : C01.Op) (o : C01.Oracle) (h : o.indexOk = false) :
+    isRejected (s.step cfg op o).2 = true := by
+  cases op with
+  | insert b =>
+    simp only [C01.Shard.step]
+    rcases insertPoints_cases s b o with ⟨_, r, h2⟩ | ⟨p, c, _, hx, _⟩
+    · rw [h2]; rfl
+    · rw [h] at hx; cases hx
+  | update b =>
+    simp only [C01.Shard.step]
+    rcases updatePoints_cases cfg s b o with ⟨_, r, h2⟩ | ⟨p, ids, _, hx, _⟩
+    · rw [h2]; rfl
+    · rw [h] at hx; cases hx
+  | delete ids =>
+    simp only [C01.Shard.step]
+    rcases deletePoints_cases s ids o with ⟨_, r, h2⟩ | ⟨hx, _⟩
+    · rw [h2]; rfl
+    · rw [h] at hx; cases hx
+
+/-- the three ways a batch can go -/
+theorem rstep_cases (lower : Bytes → Bytes) (cv : Conv) (cfg : C01.Cfg) (env : Env V T D S W) (rs : RState V T)
+    (op : C01.Op) (ro : ROracle T) :
+    (rankVerdict env rs (changes cfg cv rs.base.shard op ro.o) = false ∧
+      rs.step lower cv cfg env op ro = (rs, (rs.base.shard.step cfg op { ro.o with indexOk := false }).2)) ∨
+    (rankVerdict env rs (changes cfg cv rs.base.shard op ro.o) = true ∧
+      isRejected (rs.base.step lower cv cfg op ro.o).2 = true ∧
+      rs.step lower cv cfg env op ro = (rs, (rs.base.step lower cv cfg op ro.o).2)) ∨
+    (rankVerdict env rs (changes cfg cv rs.base.shard op ro.o) = true ∧
+      isRejected (rs.base.step lower cv cfg op ro.o).2 = false ∧
+      rs.step lower cv cfg env op ro =
+        ({ base := (rs.base.step lower cv cfg op ro.o).1,
+           flats := rs.flats.map fun fx => fx.step env (changes cfg cv rs.base.shard op ro.o),
+           texts := rs.texts.map fun tx => tx.step env ro.arrive (changes cfg cv rs.base.shard op ro.o) },
+         (rs.base.step lower cv cfg op ro.o).2)) := by
+  simp only [RState.step]
+  cases hv : rankVerdict env rs (changes cfg cv rs.base.shard op ro.o) with
+  | false => left; simp
+  | true =>
+    right
+    cases hr : isRejected (rs.base.step lower cv cfg op ro.o).2 with
+    | true => left; simp
+    | false => right; simp
+
+/-- the change stream of a batch of the combined state that is not rejected leads from the old documents
+to the new ones (read off `step_inv` of Lemmas.lean) -/
+theorem state_step_chain (lower : Bytes → Bytes) (cv : Conv) (cfg : C01.Cfg) {st : State} (hI : Inv lower cv st)
+    (op : C01.Op) (o : C01.Oracle) (hr : isRejected (st.step lower cv cfg op o).2 = false)
+    (hb : (st.step lower cv cfg op o).1.shard.nextV ≤ idBound) :
+    C02.PChain (docAt cv st.shard.pts) (changes cfg cv st.shard op o) (docAt cv (st.step lower cv cfg op o).1.shard.pts) := by
+  obtain ⟨hs1, hs2⟩ := step_shard lower cv cfg st op o
+  have hchain := step_chain cfg cv st.shard hI.store hI.bound op (withVerdict lower cv cfg st op o)
+    (by rw [← hs2]; exact hr) (by rw [← hs1]; exact hb)
+  rw [← hs1] at hchain
+  unfold withVerdict at hchain
+  rw [changes_indexOk] at hchain
+  exact hchain
+
+theorem TextIx.step_path (env : Env V T D S W) (arrive : List (C05.Doc T) → List (C05.Doc T)) (tx : TextIx T)
+    (pcs : List C02.PChange) : (tx.step env arrive pcs).path = tx.path := rfl
+
+/-- **one batch keeps the invariant** -/
+theorem rstep_inv (lower : Bytes → Bytes) (cv : Conv) (cfg : C01.Cfg) (env : Env V T D S W) {rs : RState V T}
+    (hR : RInv lower cv env rs) (op : C01.Op) (ro : ROracle T) (ok : RStepOK lower cv cfg env rs op ro) :
+    RInv lower cv env (rs.step lower cv cfg env op ro).1 := by
+  rcases rstep_cases lower cv cfg env rs op ro with ⟨_, h⟩ | ⟨_, _, h⟩ | ⟨hv, hr, h⟩
+  · rw [h]; exact hR
+  · rw [h]; exact hR
+  · obtain ⟨hb, hflt, harr⟩ := ok
+    rw [h] at hb ⊢
+    have hb' : (rs.base.step lower cv cfg op ro.o).1.shard.nextV ≤ idBound := hb
+    have hbase : Inv lower cv (rs.base.step lower cv cfg op ro.o).1 := step_inv lower cv cfg hR.base op ro.o ⟨hb', hflt⟩
+    have hchain := state_step_chain lower cv cfg hR.base op ro.o hr hb'
+    unfold rankVerdict at hv
+    simp only [Bool.and_eq_true] at hv
+    refine ⟨hbase, ?_, ?_⟩
+    · intro fx' hfx'
+      obtain ⟨fx, hfx, rfl⟩ := List.mem_map.1 hfx'
+      exact flat_chain env hchain fx (hR.flat fx hfx)
+        (flat_typesOk_castOk env fx _ (List.all_eq_true.1 hv.1 fx hfx))
+    · intro tx' htx'
+      obtain ⟨tx, htx, rfl⟩ := List.mem_map.1 htx'
+      show C05.TextInv (tx.step env ro.arrive _).ix
+        (refCorpus cv env tx.path (rs.base.step lower cv cfg op ro.o).1.shard.pts.pI (C01.abs (rs.base.step lower cv cfg op ro.o).1.shard))
+      have h0 := hR.text tx htx
+      have hp := hR.base.store.pts
+      have hp' := hbase.store.pts
+      -- what the index holds: the statistics of the old corpus with the batch applied in arrival order
+      have h1 := C05.applyBatch_inv h0 (ro.arrive ((changes cfg cv rs.base.shard op ro.o).filterMap (textDoc env tx.path)))
+      -- that corpus agrees with the new documents
+      have hag := text_chain env tx.path hchain _ (agree_refCorpus cv env tx.path hp hR.base.liveBound)
+      have hord := C05.C05_order (refCorpus cv env tx.path rs.base.shard.pts.pI (C01.abs rs.base.shard))
+        (ro.arrive ((changes cfg cv rs.base.shard op ro.o).filterMap (textDoc env tx.path)))
+        ((changes cfg cv rs.base.shard op ro.o).filterMap (textDoc env tx.path)) (harr _)
+      refine TextInv_congr h1 (refCorpus_wf cv env tx.path hp' _) ?_
+      intro n
+      rw [hord n]
+      exact agree_unique env tx.path hag (agree_refCorpus cv env tx.path hp' hbase.liveBound) n
+
+theorem rinit_inv (lower : Bytes → Bytes) (cv : Conv) (env : Env V T D S W) (schema : List (List String × C02.Kind))
+    (bolt : Bool) (fpaths tpaths : List (List String)) :
+    RInv lower cv env (RState.init schema bolt fpaths tpaths : RState V T) := by
+  refine ⟨init_inv lower cv schema bolt, ?_, ?_⟩
+  · intro fx hfx
+    simp only [RState.init, List.mem_map] at hfx
+    obtain ⟨p, _, rfl⟩ := hfx
+    refine ⟨by simp, fun i => ?_⟩
+    have hd : docAt cv (RState.init schema bolt fpaths tpaths : RState V T).base.shard.pts i = none := rfl
+    rw [hd]; simp [vecAt, C02.getProp]
+  · intro tx htx
+    simp only [RState.init, List.mem_map] at htx
+    obtain ⟨p, _, rfl⟩ := htx
+    exact C05.TextInv.empty
+
+theorem rrun_inv (lower : Bytes → Bytes) (cv : Conv) (cfg : C01.Cfg) (env : Env V T D S W) (h : List (C01.Op × ROracle T)) :
+    ∀ (rs : RState V T), RInv lower cv env rs → RHistOK lower cv cfg env rs h →
+      RInv lower cv env (RState.run lower cv cfg env rs h).1 := by
+  induction h with
+  | nil => intro rs hR _; exact hR
+  | cons e rest ih =>
+    obtain ⟨op, ro⟩ := e
+    intro rs hR hok
+    exact ih _ (rstep_inv lower cv cfg env hR op ro hok.1) hok.2
+
+/-! #### against the reference map -/
+
+/-- the point store of the combined state runs under the verdict of ALL indexes -/
+theorem rstep_shard (lower : Bytes → Bytes) (cv : Conv) (cfg : C01.Cfg) (env : Env V T D S W) (rs : RState V T)
+    (op : C01.Op) (ro : ROracle T) :
+    (rs.step lower cv cfg env op ro).1.base.shard =
+      (rs.base.shard.step cfg op { ro.o with indexOk := fullVerdict lower cv cfg env rs op ro.o }).1 ∧
+    (rs.step lower cv cfg env op ro).2 =
+      (rs.base.shard.step cfg op { ro.o with indexOk := fullVerdict lower cv cfg env rs op ro.o }).2 := by
+  obtain ⟨hs1, hs2⟩ := step_shard lower cv cfg rs.base op ro.o
+  unfold withVerdict at hs1 hs2
+  unfold fullVerdict
+  rcases rstep_cases lower cv cfg env rs op ro with ⟨hv, h⟩ | ⟨hv, hr, h⟩ | ⟨hv, hr, h⟩
+  · rw [h, hv, Bool.and_false]
+    exact ⟨(shard_step_rejected cfg rs.base.shard op _ (shard_step_indexFalse cfg _ op _ rfl)).symm, rfl⟩
+  · rw [h, hv, Bool.and_true]
+    refine ⟨?_, hs2⟩
+    rw [← hs1, step_rejected_same lower cv cfg rs.base op ro.o hr]
+  · rw [h, hv, Bool.and_true]
+    exact ⟨hs1, hs2⟩
+
+/-- the history as the reference map sees it: each batch with the verdict all the indexes gave -/
+def rspecHist (lower : Bytes → Bytes) (cv : Conv) (cfg : C01.Cfg) (env : Env V T D S W) :
+    RState V T → List (C01.Op × ROracle T) → List (C01.Op × Bool)
+  | _, [] => []
+  | rs, (op, ro) :: rest =>
+    (op, fullVerdict lower cv cfg env rs op ro.o) :: rspecHist lower cv cfg env (rs.step lower cv cfg env op ro).1 rest
+
+theorem rrun_abs (lower : Bytes → Bytes) (cv : Conv) (cfg : C01.Cfg) (env : Env V T D S W) (h : List (C01.Op × ROracle T)) :
+    ∀ (rs : RState V T), C01.Inv rs.base.shard →
+    C01.abs (RState.run lower cv cfg env rs h).1.base.shard =
+      (C01.Coll.run cfg (C01.abs rs.base.shard) (rspecHist lower cv cfg env rs h)).1 ∧
+    C01.Out.equivList (RState.run lower cv cfg env rs h).2
+      (C01.Coll.run cfg (C01.abs rs.base.shard) (rspecHist lower cv cfg env rs h)).2 := by
+  induction h with
+  | nil => intro rs _; exact ⟨rfl, trivial⟩
+  | cons e rest ih =>
+    obtain ⟨op, ro⟩ := e
+    intro rs hI
+    obtain ⟨hs1, hs2⟩ := rstep_shard lower cv cfg env rs op ro
+    obtain ⟨k1, k2, k3⟩ := C01.C01_step cfg rs.base.shard op { ro.o with indexOk := fullVerdict lower cv cfg env rs op ro.o } hI
+    rw [← hs1] at k1 k2
+    rw [← hs2] at k3
+    obtain ⟨j1, j2⟩ := ih _ k1
+    simp only [RState.run, rspecHist, C01.Coll.run]
+    rw [k2] at j1 j2
+    exact ⟨j1, k3, j2⟩
+
+/-- the schema (filter entries, vectorFlat paths, text paths) never changes -/
+theorem rstep_schema (lower : Bytes → Bytes) (cv : Conv) (cfg : C01.Cfg) (env : Env V T D S W) (rs : RState V T)
+    (op : C01.Op) (ro : ROracle T) :
+    (rs.step lower cv cfg env op ro).1.base.schema = rs.base.schema ∧
+    (rs.step lower cv cfg env op ro).1.flatPaths = rs.flatPaths ∧
+    (rs.step lower cv cfg env op ro).1.textPaths = rs.textPaths := by
+  rcases rstep_cases lower cv cfg env rs op ro with ⟨_, h⟩ | ⟨_, _, h⟩ | ⟨_, _, h⟩
+  · rw [h]; exact ⟨rfl, rfl, rfl⟩
+  · rw [h]; exact ⟨rfl, rfl, rfl⟩
+  · rw [h]
+    refine ⟨step_schema lower cv cfg rs.base op ro.o, ?_, ?_⟩
+    · simp only [RState.flatPaths, List.map_map]
+      apply List.map_congr_left
+      intro fx _; exact FlatIx.step_path env _ fx
+    · simp only [RState.textPaths, List.map_map]
+      apply List.map_congr_left
+      intro tx _; rfl
+
+theorem rrun_schema (lower : Bytes → Bytes) (cv : Conv) (cfg : C01.Cfg) (env : Env V T D S W) (h : List (C01.Op × ROracle T)) :
+    ∀ (rs : RState V T),
+    (RState.run lower cv cfg env rs h).1.base.schema = rs.base.schema ∧
+    (RState.run lower cv cfg env rs h).1.flatPaths = rs.flatPaths ∧
+    (RState.run lower cv cfg env rs h).1.textPaths = rs.textPaths := by
+  induction h with
+  | nil => intro rs; exact ⟨rfl, rfl, rfl⟩
+  | cons e rest ih =>
+    obtain ⟨op, ro⟩ := e
+    intro rs
+    simp only [RState.run]
+    obtain ⟨a1, a2, a3⟩ := ih (rs.step lower cv cfg env op ro).1
+    obtain ⟨b1, b2, b3⟩ := rstep_schema lower cv cfg env rs op ro
+    exact ⟨a1.trans b1, a2.trans b2, a3.trans b3⟩
+
+theorem rinit_schema (schema : List (List String × C02.Kind)) (bolt : Bool) (fpaths tpaths : List (List String)) :
+    (RState.init schema bolt fpaths tpaths : RState V T).base.schema = schema ∧
+    (RState.init schema bolt fpaths tpaths : RState V T).flatPaths = fpaths ∧
+    (RState.init schema bolt fpaths tpaths : RState V T).textPaths = tpaths := by
+  refine ⟨init_schema schema bolt, ?_, ?_⟩ <;> simp [RState.init, RState.flatPaths, RState.textPaths, List.map_map, Function.comp_def]
+
+end write
+
 end Sema.Compose
